@@ -21,8 +21,12 @@ LookupOK(ev) ==
     ELSE \A f \in Files :
            LET want == RLookup(ev.pat, ev.cdrive, ev.cdir, f) IN
            IF f \in Sel(ev) THEN want \in {"yes", "either"} ELSE want \in {"no", "either"}
+\* type NAME on a real disc whose catalogue is ev.cat (fragments of entries): found (1) / reported not found (0)
+FindOK(ev) == LET want == RFind(ev.cat, ev.qdir, ev.qname) IN
+              IF ev.found = 1 THEN want \in {"yes", "either"} ELSE ev.found = 0 /\ want \in {"no", "either"}
 Judge(ev) == CASE ev.e = "match" -> MatchOK(ev)
                [] ev.e = "lookup" -> LookupOK(ev)
+               [] ev.e = "find" -> FindOK(ev)
                [] OTHER -> FALSE
 TInit == pat = <<>> /\ cdir = 0 /\ l = 1 /\ bad = {}
 TNext == /\ l <= Len(TraceLog) /\ l' = l + 1
